@@ -106,9 +106,11 @@ def check_table(res, repo):
         if isinstance(n, ast.Assign) and len(n.targets) == 1 and isinstance(n.targets[0], ast.Name):
             asg.setdefault(n.targets[0].id, []).append(n.value)
 
-    def popped(name, key):
-        """the local holds the value taken out of the raw dict under `key` (pop / get / subscript)"""
+    def popped(name, key, depth=0):
+        """the local holds the value taken out of the raw dict under `key` (pop / get / subscript), possibly through a copy"""
         for v in asg.get(name, []):
+            if isinstance(v, ast.Name) and v.id != name and depth < 3 and popped(v.id, key, depth + 1):
+                return True
             if isinstance(v, ast.Call) and call_name(v) in ("pop", "get") and v.args and isinstance(v.args[0], ast.Constant) and v.args[0].value == key:
                 return True
             if isinstance(v, ast.Subscript) and isinstance(v.slice, ast.Constant) and v.slice.value == key:
